@@ -711,6 +711,7 @@ func VerifClockReuse() {
 	w.dc = ast.NewDataContext()
 	w.dc.Add("F", w.f)
 	w.f.U8 = 0 // the stamping rule is due in the second call
+	verif.ClockTick()
 	start := time.Now().Unix()
 	verif.Reach("tierB:clock-second-call")
 	err := eng.Execute(w.dc, w.kb)
